@@ -128,8 +128,37 @@ func init() {
 			c01StatusMixes(c)
 		},
 		Solo:  c01Solo,
-		Cases: func(c *mon.Ctx) int { return nCorpus + c.Pick(120000, 3000000) },
+		Cases: func(c *mon.Ctx) int { return nCorpus + c.Pick(120000, 3000000) + c01Directed(c) },
 		RunCase: func(c *mon.Ctx, i int) {
+			if nM := nCorpus + c.Pick(120000, 3000000); i >= nM {
+				// directed families: the small ones (general names, AIA, DNs, name constraints, extension shapes, CRL
+				// shapes) completely, the two big ones by a stride
+				dC, tail, j := directedCount(c), directedSmallTail(c), i-nM
+				k := dC - 1 - j
+				if j >= tail {
+					k = dC - tail - 1 - (j-tail)*c.Pick(9, 2) - int(uint64(c.Seed)%uint64(c.Pick(9, 2)))
+				}
+				if k < 0 {
+					return
+				}
+				o, desc := directedCase(c, k)
+				if o == nil {
+					return
+				}
+				c.R.Count("directed_accepted", 1)
+				s := c01Judge(c, o, c01Regs[0])
+				c01Judge(c, o, c01Regs[1+(k%(len(c01Regs)-1))])
+				for _, sd := range s {
+					if sd.Status > int(lint.NA) {
+						c.CountDistinct(o.DER)
+						break
+					}
+				}
+				if k%5003 == 0 {
+					c.R.Sample(8, map[string]any{"kind": o.Kind.String(), "directed": desc, "statuses": statusSetKey(s)})
+				}
+				return
+			}
 			if i < nCorpus {
 				o := W.Objs[i]
 				nt := false
@@ -294,4 +323,8 @@ func c01StatusMixes(c *mon.Ctx) {
 			}
 		}
 	}
+}
+
+func c01Directed(c *mon.Ctx) int {
+	return directedSmallTail(c) + (directedCount(c)-directedSmallTail(c))/c.Pick(9, 2)
 }
